@@ -163,3 +163,57 @@ func TestC07KnownFindingAndWeakProjection(t *testing.T) {
 		t.Fatal("full projection accepts different observations")
 	}
 }
+
+// plain-after-failure: the real implementation is accepted; an implementation in which a
+// failed plain render leaves its registrations behind (the later render writes c1.M instead
+// of c.M) is rejected, and so is a "failing" render that does not fail.
+func TestC07PlainAfterFailure(t *testing.T) {
+	r := rand.New(rand.NewSource(3))
+	nt := 0
+	for i := 0; i < 200; i++ {
+		c := c07PlainAfterFailure(r)
+		got := ExecFresh(c.Hist)
+		if m := (c07{}).Oracle(c, got); m != "" {
+			t.Fatalf("oracle rejects the real implementation: %s\n%s", m, c.Hist.Sexp())
+		}
+		if m := (c07{}).Compare(c, got, got); m != "" {
+			t.Fatalf("Compare rejects identical observations: %s", m)
+		}
+		if c.NonTrivial {
+			nt++
+		}
+		plan := c.Meta["plain"].([]string)
+		// leak: the first successful render after a failed one gets a numbered qualifier
+		bad := append([]hist.Obs{}, got...)
+		seenFail := false
+		for j, w := range plan {
+			if w == "fail" {
+				seenFail = true
+			} else if seenFail {
+				k := strings.Index(bad[j].Out, ".")
+				bad[j].Out = bad[j].Out[:k] + "1" + bad[j].Out[k:]
+				break
+			}
+		}
+		if m := (c07{}).Oracle(c, bad); !strings.Contains(m, "want") {
+			t.Fatalf("oracle accepted a leaked registration: %q", m)
+		}
+		if m := (c07{}).Compare(c, got, bad); m == "" {
+			t.Fatalf("Compare accepted a differing observation after a failed render")
+		}
+		// a planned failure that succeeds: reported (harness fault, never silently vacuous)
+		bad2 := append([]hist.Obs{}, got...)
+		for j, w := range plan {
+			if w == "fail" {
+				bad2[j] = hist.Obs{Kind: "write", Out: "x"}
+				break
+			}
+		}
+		if m := (c07{}).Oracle(c, bad2); !strings.Contains(m, "built to fail") {
+			t.Fatalf("oracle accepted a planned failure that did not fail: %q", m)
+		}
+	}
+	if nt != 200 {
+		t.Fatalf("%d of 200 cases non-trivial", nt)
+	}
+}
